@@ -269,6 +269,18 @@ public:
     return _end;
   }
 
+  bool operator==(const Array& other) const
+  {
+    if(size() != other.size())
+      return false;
+    for(const T* a = _begin.item, * b = other._begin.item, * end = _end.item; a != end; ++a, ++b)
+      if(*a != *b)
+        return false;
+    return true;
+  }
+
+  bool operator!=(const Array& other) const {return !(*this == other);}
+
 private:
   Iterator _begin;
   Iterator _end;
